@@ -110,6 +110,15 @@ def check(ctx):
                         bad = [x for x in region if x == spawn]
                         ctx.check(not bad, "C05.b", "%s:nothing-spawned-when-nobody-listens" % fk, body.loc(b2), "",
                                   "the payload is spawned on the count == 0 arm")
+        if not zero_arm_ok and len(lens) == 1:
+            # `if handlers.is_empty() { return }` on the very list whose length is the count
+            for b2, t2, fr2 in body.iter_calls():
+                if fr2 is not None and lib.tail(mir.fn_name(fr2), 1) == "is_empty" and t2["args"] and LP.coll_source(body, t2["args"][0]) == lens[0]:
+                    for (sb, tt, ft) in lib.bool_arms(body, b2):
+                        if body.dominates(ft, spawn):
+                            zero_arm_ok = True
+                        ctx.check(spawn not in body.reach_from(tt), "C05.b", "%s:nothing-spawned-when-nobody-listens" % fk, body.loc(b2), "",
+                                  "the payload is spawned on the empty-list arm")
         ctx.check(zero_arm_ok, "C05.b", "%s:spawn-only-if-read" % fk, body.loc(spawn),
                   "payload spawn is dominated by the count != 0 arm", "the payload entity is spawned even when the reader count is 0 (it would never be released)")
 
